@@ -139,6 +139,8 @@ func c05Run(c c05Case, o *hx.Obs) {
 	kind := "range"
 	if c.Base == "string" {
 		kind = "string"
+	} else if c.Base == "binary" {
+		kind = "binary-length"
 	}
 	// discriminators
 	var disc []string
